@@ -1,5 +1,6 @@
 import ElaVerif.Model.Distribute
 import ElaVerif.Lemmas.Distribute
+import ElaVerif.Lemmas.DistributeFloat
 /-!
 # C27 — DPoS reward distribution never pays out more than the pool
 
@@ -112,6 +113,72 @@ theorem C27_payments_nonneg_partial (era : Nat) (ibc : Fixed64) (share : Fixed64
   · rw [List.mem_map] at hp
     obtain ⟨v, _, rfl⟩ := hp
     exact hs v
+
+/-! ### with the float quantities of the standard model (no longer parametric) -/
+
+/-- a consistent distribution input: reward below 2^51 sela (22.5 million ELA — the exact domain:
+    the roundings inflate the payments by at most `reward·2.5·2⁻⁵³`, which stays below one sela up to
+    ≈ 2^51.7; from ≈ 3.6·10^15 sela on the floors can add up to more than the reward), at least one
+    seat, a positive vote total that covers every vote count a payment is computed from, no more
+    on-duty arbiters than seats -/
+structure WFDist (inp : Input) (total : Fixed64) : Prop where
+  reward_nonneg : 0 ≤ toInt inp.reward
+  reward_small : toInt inp.reward < 2 ^ 51
+  seats : 0 < arbitersCount inp
+  total_pos : 0 < toInt total
+  votes_nonneg : ∀ v ∈ countedVotes inp, 0 ≤ v
+  votes_le_total : (countedVotes inp).sum ≤ toInt total
+  on_duty_le_seats : inp.arbs.length ≤ arbitersCount inp
+
+/-- **Every payment is non-negative and all payments together are at most the reward**, for
+    every rounding operator satisfying the standard model of binary64 arithmetic
+    (`ibcF`, `shareF` = the Go float expressions over that operator). -/
+theorem C27_payments_bounded_std (fl : ℚ → ℚ) (h : FloatModel.StdModel fl) (inp : Input) (total : Fixed64)
+    (wf : WFDist inp total) :
+    (∀ p ∈ payments inp.era (ibcF fl inp.reward (arbitersCount inp)) (shareF fl inp.reward total) inp, 0 ≤ toInt p) ∧
+    sumZ (payments inp.era (ibcF fl inp.reward (arbitersCount inp)) (shareF fl inp.reward total) inp)
+      ≤ toInt inp.reward :=
+  payments_bounded h inp total wf.reward_nonneg wf.reward_small wf.seats wf.total_pos wf.votes_nonneg
+    wf.votes_le_total wf.on_duty_le_seats
+
+/-- **… so the distribution succeeds, attributes at most the reward, and carries forward exactly the
+    non-negative difference**: on a consistent input the `change < 0` error cannot occur and the
+    64-bit accumulator does not wrap. -/
+theorem C27_no_overpay_std (fl : ℚ → ℚ) (h : FloatModel.StdModel fl) (inp : Input) (total : Fixed64)
+    (wf : WFDist inp total) (hne : earlyExit inp = false)
+    (m : RMap) (real : Fixed64)
+    (he : distributeEra (ibcF fl inp.reward (arbitersCount inp)) (shareF fl inp.reward total) inp = some (m, real)) :
+    toInt real ≤ toInt inp.reward ∧ 0 ≤ toInt real ∧
+    distribute (ibcF fl inp.reward (arbitersCount inp)) (shareF fl inp.reward total) inp
+      = some (m, inp.reward - real) ∧
+    toInt (inp.reward - real) = toInt inp.reward - toInt real := by
+  obtain ⟨hnn, hle⟩ := C27_payments_bounded_std fl h inp total wf
+  have hreal := C27_real_is_sum _ _ inp m real hne he
+  have hs0 := sumZ_nonneg _ hnn
+  have hex : toInt real = sumZ (payments inp.era (ibcF fl inp.reward (arbitersCount inp)) (shareF fl inp.reward total) inp) := by
+    rw [hreal, sumW_eq, Fixed64.toInt_ofInt]
+    have := wf.reward_small
+    exact bmod_exact _ (by omega) (by omega)
+  have hdiff : toInt (inp.reward - real) = toInt inp.reward - toInt real := by
+    have e : inp.reward - real = ofInt (toInt inp.reward - toInt real) := by
+      unfold ofInt toInt
+      rw [BitVec.sub_eq_iff_eq_add, ← BitVec.ofInt_toInt (x := real), ← BitVec.ofInt_add, BitVec.ofInt_toInt]
+      have : inp.reward.toInt - real.toInt + real.toInt = inp.reward.toInt := by omega
+      rw [this, BitVec.ofInt_toInt]
+    rw [e, Fixed64.toInt_ofInt]
+    have := wf.reward_small
+    have := wf.reward_nonneg
+    apply bmod_exact <;> omega
+  refine ⟨by omega, by omega, ?_, hdiff⟩
+  unfold distribute
+  rw [he]
+  simp only []
+  have hlt : lt (inp.reward - real) 0 = false := (lt_zero_false _).mpr (by omega)
+  split
+  · rename_i hc
+    rw [hlt] at hc
+    cases hc
+  · rfl
 
 /-- non-vacuity: 3 on-duty arbiters of 36 seats, votes 500/700 of 1200 (numbers of the replay) -/
 def demo : Input := ⟨3, false, 12, 24, 191780820000, [⟨.crcOwner, 0⟩, ⟨.normal, 500⟩, ⟨.normal, 700⟩], []⟩
